@@ -309,25 +309,50 @@ def check_early(case):
                                             h["session_id"], h["suites"],
                                             exts))]
 
+    srv12 = case.get("srv12")
+
     def mitm(direction, idx, rec):
         raw = rec["hdr"] + rec["body"]
-        if direction == "c2s" and idx == 0 and not state.get("inj"):
-            state["inj"] = True
-            junk = [bytes([23, 3, 3]) + sz.to_bytes(2, "big") +
-                    prg(b"early%d" % i, sz) for i in range(n)]
-            return [raw] + junk
+        junk = [bytes([23 if not srv12 else 22, 3, 3]) +
+                sz.to_bytes(2, "big") + prg(b"early%d" % i, sz)
+                for i in range(n)]
+        if direction == "c2s" and not state.get("inj"):
+            if not srv12 and idx == 0:
+                state["inj"] = True
+                return [raw] + junk
+            if srv12 and rec["type"] == 20:
+                # the server settled for TLS 1.2: behind the client's CCS
+                # nothing may be skipped any more
+                state["inj"] = True
+                return [raw] + junk
         return [raw]
 
     def prepare(cc, scn):
         Deviant(cc, fn)
-    p = sc.connect({"settings": sc.mk_settings(**st_),
+    cst = dict(st_)
+    sst = dict(st_)
+    if srv12:
+        cst["minVersion"] = (3, 3)
+        sst["minVersion"] = sst["maxVersion"] = (3, 3)
+        labels.append("server-tls12")
+    p = sc.connect({"settings": sc.mk_settings(**cst),
                     "session": p0.c.session},
                    {"cred": "rsa", "settings": sc.mk_settings(
-                       ticketKeys=[k2], max_early_data=M, **st_)},
+                       ticketKeys=[k2], max_early_data=M, **sst)},
                    mitm=mitm, prepare=prepare)
     if not state.get("done") or not state.get("inj"):
         return good(nt=False, labels=labels + ["not-applied"])
     total = n * sz
+    if srv12:
+        srv = describe_exc(p.so.exc) if p.so.exc else p.so.state
+        labels.append("server=" + srv)
+        if p.so.ok or not isinstance(p.so.exc, TLSLocalAlert):
+            return bad("undecryptable-record-skipped:tls12-after-ccs",
+                       "ClientHello offered TLS 1.3 + PSK + early_data, the "
+                       "server negotiated TLS 1.2; %d forged record(s) behind "
+                       "the client's ChangeCipherSpec: server ended with %s"
+                       % (n, srv), labels=labels)
+        return good(labels=labels)
     srv = describe_exc(p.so.exc) if p.so.exc else p.so.state
     labels.append("server=" + srv)
     if total >= 2 * M:
@@ -814,6 +839,9 @@ def explicit(tier, seed):
     for n, sz in ((1, 100), (3, 500), (2, 1000), (5, 900), (8, 600),
                   (40, 120), (3, 2000), (30, 1000)):
         yield {"level": "E", "n": n, "size": sz, "budget": 2000}
+        if n <= 3:
+            yield {"level": "E", "n": n, "size": min(sz, 300),
+                   "budget": 2000, "srv12": True}
     for v in ((3, 4), (3, 3), (3, 1)):
         for d in "cs":
             for auth in (False, True):
